@@ -842,7 +842,20 @@ pub fn run_universe(spec: &Spec, uni: &Universe, coll: &Mutex<Collector>, limits
                     // the same configuration was reached from another world + deletion set
                     return Ok(None);
                 }
-                let mut result = analyze(&cfg, spec, faults)?;
+                // a panic that escapes the per-call catch_unwind (inside a query, the snapshot hook, or the
+                // harness itself) is a machinery error with the configuration named, never a raw crash
+                let mut result = match std::panic::catch_unwind(std::panic::AssertUnwindSafe(|| analyze(&cfg, spec, faults))) {
+                    Ok(r) => r?,
+                    Err(p) => {
+                        return Err(MachineryError(format!(
+                            "panic outside a guarded engine call while analysing {} (versions {:?}, deleted {:?}): {}",
+                            g.describe(),
+                            versions,
+                            deleted,
+                            crate::sim::panic_msg(&p)
+                        )))
+                    }
+                };
                 let nontrivial = result.counters.states >= 3;
                 if step + 1 == spec.depth && result.terminals.len() > 1 {
                     // last level: terminals are only needed as a sample
